@@ -79,13 +79,13 @@ theorem c06_nested_never_fails (env : Env) (tr : Tracker) (scope : List Seg)
 what follows -/
 theorem c06_json_unknown_member_skipped (c : TCfg) (scope : List Seg) (fields : List Field)
     (acc : List (Bytes × Value)) (seen : List Bytes) (k : Bytes) (v : Json.JVal)
-    (rest : List (Bytes × Json.JVal)) (hk : findField fields k = none)
+    (rest : List (Bytes × Json.JVal)) (hkey : c.sem.key k = some k) (hk : findField fields k = none)
     (hx : c.tracker.check (scope ++ [.key k]) = .no) :
     treeReadEntries c scope (.record fields) acc seen ((k, v) :: rest) =
       (match v with
        | .null => treeReadEntries c scope (.record fields) acc seen rest
        | _ => treeReadEntries c scope (.record fields) acc (seen ++ [k]) rest) := by
-  cases v <;> simp [treeReadEntries, hk, hx, bindT] <;>
+  cases v <;> simp [treeReadEntries, treeCallbackWith, hkey, hk, hx, bindT] <;>
     (cases treeReadEntries c scope (.record fields) acc (seen ++ [k]) rest <;> simp)
 
 /-- JSON: a null member counts as absent — it is skipped before the callback and is not "seen" -/
